@@ -40,6 +40,8 @@ def prove(run: lib.Run):
 
 def edge_ty(kind, tgt):
     inner = ("name", tgt)
+    if kind == "plain":
+        return inner
     return {"opt": ("union", "Optional", [inner, ("none",)]),
             "bar": ("union", "|", [inner, ("none",)]),
             "list": ("seq", "KList", "list[{}]", inner),
@@ -65,13 +67,18 @@ def topologies(ncls, rng, limit):
             yield tuple(rng.choice(o) for o in per_class)
 
 
-def make_env(topo, rng, flavours=("dataclass", "dataclass", "namedtuple", "typeddict", "plain")):
+def make_env(topo, rng, flavours=("dataclass", "dataclass", "namedtuple", "typeddict", "plain"), plain=True):
     env = {"module": coregen.new_module_name("c07"), "defs": {}}
     env["defs"]["EnA"] = ("enum", [("RED", "1"), ("BLUE", "2")])
     for n, edges in enumerate(topo):
         flavour = rng.choice(flavours)
         opts = rng.choice(["", "frozen=True", "slots=True"]) if flavour == "dataclass" else ""
         fields = [("val", rng.choice([("leaf", "int"), ("leaf", "Decimal"), ("leaf", "EnA"), ("leaf", "date")]), None)]
+        edges = list(edges)
+        # a bare class member (no Optional / container around it): only towards a later class, so that every value
+        # is finite; the cycle closes through the other edges
+        if plain and n < len(topo) - 1 and rng.random() < 0.4:
+            edges.insert(rng.randint(0, len(edges)), ("plain", rng.randrange(n + 1, len(topo))))
         for i, (kind, tgt) in enumerate(edges):
             fields.append((f"e{i}", edge_ty(kind, tgt), None))
         env["defs"][n] = ("class", flavour, opts, fields)
@@ -100,11 +107,19 @@ def deep_value(rng, env, mod, n, depth):
             return rng.choice(list(EnA))
         return coregen.gen_value(rng, t, env, mod)
 
-    def empty_edge(kind):
+    def minimal(cn):
+        d = env["defs"][cn]
+        kw = {f: (leafv(t) if f == "val" else empty_edge(_kind(t), t)) for f, t, _ in d[3]}
+        return getattr(mod, coregen.cname(cn))(**kw)
+
+    def empty_edge(kind, t=None):
+        if kind == "plain":
+            return minimal(t[1])
         return {"opt": None, "bar": None, "list": [], "dict": {}, "tuple": ()}[kind]
 
     def wrap_edge(kind, child):
-        return {"opt": child, "bar": child, "list": [child], "dict": {"k": child}, "tuple": (child,)}[kind]
+        return {"opt": child, "bar": child, "list": [child], "dict": {"k": child}, "tuple": (child,),
+                "plain": child}[kind]
 
     # choose a path of classes of the requested length by following first edges
     path = [n]
@@ -128,13 +143,15 @@ def deep_value(rng, env, mod, n, depth):
                 if first and child is not None:
                     kw[f] = wrap_edge(kind, child)
                 else:
-                    kw[f] = empty_edge(kind)
+                    kw[f] = empty_edge(kind, t)
                 first = False
         child = cls(**kw)
     return child
 
 
 def _target(t):
+    if t[0] == "name":
+        return t[1]
     if t[0] == "union":
         return t[2][0][1]
     if t[0] == "seq":
@@ -145,6 +162,8 @@ def _target(t):
 
 
 def _kind(t):
+    if t[0] == "name":
+        return "plain"
     if t[0] == "union":
         return "opt" if t[1] == "Optional" else "bar"
     if t[0] == "seq":
@@ -279,6 +298,20 @@ def raw_levels(v, env, mod, t):
     return bad
 
 
+def raw_in_wire(w, module):
+    """positions of a marshalled value that still hold an instance of a class of the synthesised module"""
+    bad, stack = [], [(w, [])]
+    while stack:
+        x, path = stack.pop()
+        if isinstance(x, dict) and type(x) is dict:
+            stack += [(v, path + [k]) for k, v in x.items()]
+        elif type(x) in (list, tuple):
+            stack += [(v, path + [i]) for i, v in enumerate(x)]
+        elif getattr(type(x), "__module__", "") == module:
+            bad.append(path)
+    return bad
+
+
 def search(run: lib.Run, broken):
     from typelib import codec, marshals, unmarshals
     groups, records, D = getattr(run, "_c07", (None, None, None))
@@ -304,6 +337,10 @@ def search(run: lib.Run, broken):
                               "module_source": g.src, "key": f"C07-build-{type(e).__name__}-{t!r}"})
             finally:
                 signal.alarm(0)
+    from props import c15
+    for f in c15.class_topologies(run, stats):
+        fails.append({"symptom": "construction raised", "type": f["annotation"], "got": repr(f["got"]),
+                      "module_source": f["module_source"], "key": "C07-build-topology-" + f["key"]})
     for rec in records:
         g = rec.group
         d = rec.case_index.get("depth")
@@ -316,6 +353,11 @@ def search(run: lib.Run, broken):
                 continue            # beyond what the interpreter's default recursion limit allows
             fails.append(dict(base, symptom="marshal of a valid recursive value raised", got=rec.wire[1],
                               key=f"C07-m-raise-{rec.pytype!r}-{d}"))
+            continue
+        rawm = raw_in_wire(rec.wire[1], g.env["module"])
+        if rawm:
+            fails.append(dict(base, symptom="a level is passed through raw by the marshaller", raw_positions=rawm[:5],
+                              got=repr(rec.wire[1])[:300], key=f"C07-m-raw-{rec.pytype!r}-{d}"))
             continue
         for tag, x, obs in rec.inputs:
             if obs[0] != "ok":
@@ -359,6 +401,25 @@ def replay(payload):
     """rebuild the module of the failing case, construct the three routines for its root and round-trip freshly
     built values of depth 0..depth (wire form and the valid value itself)"""
     from typelib import codec, marshals, unmarshals
+    if ("env" not in payload or "tdesc" not in payload) and "module_source" in payload:
+        # a construction failure: rebuild the module and construct the routines for the named class
+        mod = impl.new_module("verif_c07_replay", payload["module_source"])
+        try:
+            t = eval(payload["type"], mod.__dict__)
+            impl.clear_caches()
+            signal.signal(signal.SIGALRM, _alarm)
+            signal.alarm(20)
+            try:
+                with warnings.catch_warnings():
+                    warnings.simplefilter("ignore")
+                    marshals.marshaller(t); unmarshals.unmarshaller(t); codec(t)
+                return {"fails": False}
+            except BaseException as e:
+                return {"fails": True, "failures": [{"symptom": "construction raised / did not terminate", "got": repr(e)[:300]}]}
+            finally:
+                signal.alarm(0)
+        finally:
+            impl.drop_module("verif_c07_replay")
     if "env" not in payload or "tdesc" not in payload:
         return {"fails": False, "note": "replay needs env + tdesc (see module_source for a manual replay)"}
     env = {"module": payload["env"]["module"] + "_replay",
@@ -384,6 +445,9 @@ def replay(payload):
             v = wrap_root(root, deep_value(rng, env, mod, cn, d))
             try:
                 w = marshals.marshal(v, t=t)
+                if raw_in_wire(w, env["module"]):
+                    problems.append({"symptom": "a level is passed through raw by the marshaller", "depth": d,
+                                     "got": repr(w)[:300]})
                 for tag, x in (("wire", w), ("valid", v)):
                     r = unmarshals.unmarshal(t, x)
                     if not coreprop.same(r, v):
